@@ -88,8 +88,7 @@ struct Fin {
 			vp::ops::with_operand<D, TT, decltype(tag_mut)::value>(src, k, run_body);
 		};
 		struct tag_T { using type = T; }; struct tag_long { using type = long; };
-		int kind = static_cast<int>(skind % 6U) + 1;  // K_REF .. K_STRIDED (views of various layouts)
-		if(kind == vp::ops::K_REF) { kind = vp::ops::K_VIEW; }
+		int kind = vp::ops::kLayoutKinds[(skind & 31U) % 8U];  // views of various layouts
 		switch(form) {
 			case F_ASSIGN_VIEW: case F_ASSIGN_VIEW_RVALUE: case F_ELEMENTS: case F_ASSIGN_RANGE: {
 				ctx.desc << " from " << vp::ops::kind_name[kind];
